@@ -246,6 +246,31 @@ def invariants(m, name, lab, out):
                     want = np.take(full, S, axis=ax)
                     if got.shape != want.shape or np.abs(got - want).max() > 1e-12 * scale:
                         bad('subset', f"{fname}(X, tind={tind.tolist()} {dt.__name__}) differs from slicing the full result")
+        # the memory-saving affine mapping built for a cell subset ("tind is ignored in its methods"): every method answers for
+        # exactly those cells, in the given order, whatever tind is passed
+        if type(mp).__name__ == 'MappingAffine' and nt >= 2:
+            from skfem.mapping import MappingAffine as _MA
+            for S in (np.array([nt - 1, 0]), np.arange(nt)[::-1].copy(), np.array([nt - 1])):
+                try:
+                    mr = _MA(m, tind=S.astype(np.int32))
+                    out.ev()
+                    for fname, full, ax in (('F', x, 1), ('DF', DF, 2), ('invDF', iDF, 2), ('detDF', det, 0)):
+                        want = np.take(full, S, axis=ax)
+                        for tl, targ in (('tind omitted', None), ('tind=cells', S.astype(np.int32))):
+                            got = getattr(mr, fname)(X) if targ is None else getattr(mr, fname)(X, targ)
+                            if got.shape != want.shape or np.abs(got - want).max() > 1e-12 * scale:
+                                bad('restricted-mapping', f"MappingAffine(mesh, tind={S.tolist()}).{fname}(X, {tl}) differs from the "
+                                    f"full mapping restricted to these cells")
+                                raise StopIteration
+                    Xb = mr.invF(np.take(x, S, axis=1), S.astype(np.int32))
+                    if np.abs(Xb - X[:, None, :]).max() > 1e-9:
+                        bad('restricted-mapping', f"MappingAffine(mesh, tind={S.tolist()}).invF(F(X)) != X")
+                        raise StopIteration
+                except StopIteration:
+                    break
+                except Exception as e:
+                    bad('restricted-mapping-exception', f"MappingAffine(mesh, tind={S.tolist()}): {e!r}")
+                    break
         # facets
         if kind != 'wedge' and not (type(mp).__name__ == 'MappingIsoparametric' and mp.bndelem is None):
             facets_check(m, mp, kind, curved, bad, out)
